@@ -2,7 +2,7 @@
 REST endpoints) against a model built directly with the scenario's settings and simulated with an independent Euler loop."""
 import random
 import time
-from verif.native.common import load_hint, write_replay, finish
+from verif.native.common import load_hint, write_replay, finish, ROOT
 
 PRELUDE = '''
 import json, math
@@ -245,7 +245,20 @@ def main():
                                  script=write_replay('C09', 'known-step-settings-persist', body), known='C09-step-settings-persist'))
     except Exception:
         pass
-    while time.time() < t_end:
+    if hint.get('prop') == 'C07':
+        # the scenario file channel (bounded, not under contract)
+        from verif.native import c07_files
+        for fc in c07_files.CASES:
+            n += 1
+            try:
+                bad = c07_files.run_files(fc)
+            except Exception as e:
+                bad = None
+            if bad:
+                body = 'sys.path.insert(0, %r)\n' % ROOT + c07_files.BODY + '\ncase = %r\nbad = run_files(case)\nprint("FAIL: " + bad if bad else "PASS")\nsys.stdout.flush()\nos._exit(1 if bad else 0)\n' % (fc,)
+                failures.append(dict(what=bad, script=write_replay('C07', 'files', body), known=None))
+                break
+    while time.time() < t_end and not [f for f in failures if not f.get('known')]:
         case = gen(rnd)
         n += 1
         try:
